@@ -85,7 +85,8 @@ VARIABLES st,       \* Slots -> "none" | "running" | "paused"
           hist
 
 vars == <<st, dotted, touched, orphan, resp, pstate, probes, after, hist>>
-view == <<st, dotted, touched, orphan, resp, pstate, probes, after, Len(hist)>>
+\* (the last step stays visible: InvalidRejected reads it)
+view == <<st, dotted, touched, orphan, resp, pstate, probes, after, Len(hist), IF hist = <<>> THEN <<>> ELSE <<hist[Len(hist)]>> >>
 State == <<st, dotted, touched, orphan>>
 
 Init == /\ st = [s \in Slots |-> "none"] /\ dotted = [s \in Slots |-> FALSE]
@@ -135,19 +136,25 @@ Delete(s) == /\ st[s] # "none" /\ st' = [st EXCEPT ![s] = "none"] /\ dotted' = [
 \* slot 0 = no slot (class without a task id) or, for task operations, an adversarial id that names no task
 SlotsOf(c) == IF c \in TaskOps THEN Slots \cup {0} ELSE IF c = "c_dup" THEN Slots ELSE {0}
 StOf(s) == IF s = 0 THEN "none" ELSE st[s]
-Probe(c, s) ==
+\* shapes of the target address a probe class is sent with: every create class that carries the plan's target
+\* ("c_both" with an empty Milvus address is a valid Kafka create, not a conflict)
+ShapesOf(c) == IF c \in (MustReject \cup OpenCreates) \ OwnAddr
+               THEN (IF c = "c_both" THEN AddrShapes \ {"empty"} ELSE AddrShapes)
+               ELSE {""}
+Probe(c, s, a) ==
     \/ /\ c = "nonpost" /\ Answer("405") /\ Same
     \/ /\ c \in Envelope \ {"nonpost", "nonutf8"} /\ Answer("err") /\ Same
     \/ /\ c = "nonutf8" /\ (IF Utf8LabelsHandled THEN Answer("err") ELSE Answer("broken")) /\ Same
     \/ /\ c \in ReadOnly /\ Answer("200") /\ Same
-    \/ /\ c \in InvalidEarly /\ Answer("err") /\ Same
-    \/ /\ c \in InvalidLate \ {"c_badrpcpos"} /\ ReachesBook(Answer("err") /\ Same)
+    \/ /\ c \in InvalidEarly /\ Logged(a, Answer("err") /\ Same)
+    \/ /\ c \in InvalidLate \ {"c_badrpcpos"} /\ Logged(a, Connects(a, ReachesBook(Answer("err") /\ Same)))
     \/ /\ c = "c_badrpcpos"
-       /\ ReachesBook(/\ Answer("err") /\ orphan' = (orphan \/ ~RpcPosCheckedFirst) /\ UNCHANGED <<st, dotted, touched>>)
+       /\ Logged(a, Connects(a, ReachesBook(/\ Answer("err") /\ orphan' = (orphan \/ ~RpcPosCheckedFirst)
+                                            /\ UNCHANGED <<st, dotted, touched>>)))
     \/ /\ c = "c_dotmap"                       \* matchCollectionName on the mapping name (cdc_impl.go:371) panics
-       /\ (IF DotNameHandled THEN Answer("err") ELSE Answer("broken")) /\ Same
-    \/ /\ c = "c_dup" /\ st[s] # "none" /\ ~dotted[s] /\ ReachesBook(Answer("err") /\ Same)
-    \/ /\ c = "c_full" /\ (\A x \in Slots : st[x] # "none") /\ ReachesBook(Answer("err") /\ Same)
+       /\ Logged(a, IF DotNameHandled THEN Answer("err") /\ Same ELSE Connects(a, Answer("broken") /\ Same))
+    \/ /\ c = "c_dup" /\ st[s] # "none" /\ ~dotted[s] /\ Logged(a, ReachesBook(Answer("err") /\ Same))
+    \/ /\ c = "c_full" /\ (\A x \in Slots : st[x] # "none") /\ Logged(a, Connects(a, ReachesBook(Answer("err") /\ Same)))
     \/ /\ c = "pause" /\ StOf(s) # "running" /\ Answer("err") /\ Same
     \/ /\ c = "resume" /\ StOf(s) # "paused" /\ Answer("err") /\ Same
     \/ /\ c = "delete" /\ StOf(s) = "none" /\ Answer("err") /\ Same
@@ -157,28 +164,29 @@ Probe(c, s) ==
 
 ProbeClasses == Envelope \cup ReadOnly \cup MustReject \cup OpenCreates \cup TaskOps
 
-Rec(c, s) == [op |-> c, slot |-> s]
+\* addr = "" : the request carries no target address of the plan's choosing
+Rec(c, s, a) == [op |-> c, slot |-> s, addr |-> a]
 
 Next ==
     \/ /\ probes = 0 /\ Len(hist) < MaxSetup                              \* setup
        /\ \E s \in Slots :
-            \/ \E k \in CreateKinds : Create(s, k) /\ hist' = Append(hist, Rec(k, s))
-            \/ \E k \in OddKinds : CreateOdd(s, k) /\ hist' = Append(hist, Rec(k, s))
-            \/ Pause(s) /\ hist' = Append(hist, Rec("pause", s))
-            \/ Resume(s) /\ hist' = Append(hist, Rec("resume", s))
-            \/ Delete(s) /\ hist' = Append(hist, Rec("delete", s))
+            \/ \E k \in CreateKinds, a \in SetupShapes : Create(s, k, a) /\ hist' = Append(hist, Rec(k, s, a))
+            \/ \E k \in OddKinds, a \in SetupShapes : CreateOdd(s, k, a) /\ hist' = Append(hist, Rec(k, s, a))
+            \/ Pause(s) /\ hist' = Append(hist, Rec("pause", s, ""))
+            \/ Resume(s) /\ hist' = Append(hist, Rec("resume", s, ""))
+            \/ Delete(s) /\ hist' = Append(hist, Rec("delete", s, ""))
        /\ UNCHANGED <<probes, after>>
     \/ /\ probes > 0 /\ after < MaxAfter                                   \* accepted requests after the probes
        /\ \E s \in Slots :
-            \/ \E k \in CreateKinds : Create(s, k) /\ hist' = Append(hist, Rec(k, s))
-            \/ Pause(s) /\ hist' = Append(hist, Rec("pause", s))
-            \/ Resume(s) /\ hist' = Append(hist, Rec("resume", s))
-            \/ Delete(s) /\ hist' = Append(hist, Rec("delete", s))
+            \/ \E k \in CreateKinds : Create(s, k, "uri") /\ hist' = Append(hist, Rec(k, s, "uri"))
+            \/ Pause(s) /\ hist' = Append(hist, Rec("pause", s, ""))
+            \/ Resume(s) /\ hist' = Append(hist, Rec("resume", s, ""))
+            \/ Delete(s) /\ hist' = Append(hist, Rec("delete", s, ""))
        /\ after' = after + 1 /\ UNCHANGED probes
     \/ /\ probes < MaxProbes /\ after = 0                                 \* probes
-       /\ \E c \in ProbeClasses : \E s \in SlotsOf(c) :
-            /\ Probe(c, s)
-            /\ hist' = Append(hist, Rec(c, s))
+       /\ \E c \in ProbeClasses : \E s \in SlotsOf(c) : \E a \in ShapesOf(c) :
+            /\ Probe(c, s, a)
+            /\ hist' = Append(hist, Rec(c, s, a))
        /\ probes' = probes + 1 /\ UNCHANGED after
 
 Spec == Init /\ [][Next]_vars
@@ -187,13 +195,15 @@ Spec == Init /\ [][Next]_vars
 \* every request gets a well-formed answer: 405 for a non-POST method, else 200 / 400 / 500; no handler crash
 Total == resp \in {"none", "200", "err", "405"}
 LastOp == hist[Len(hist)].op
-InvalidRejected == (hist # <<>> /\ LastOp \in MustReject) => resp # "200"
+\* ... the semantically invalid creates are not accepted (an empty target address is one of them)
+InvalidRejected == (hist # <<>> /\ (LastOp \in MustReject \/ hist[Len(hist)].addr = "empty")) => resp # "200"
 \* a request that was not accepted leaves task list, checkpoints and book-keeping as they were
 RejectIsNoop == resp \in {"err", "405", "broken"} => State = pstate
 Contract == Total /\ InvalidRejected /\ RejectIsNoop
 
 TypeOK == /\ \A s \in Slots : st[s] \in {"none", "running", "paused"}
           /\ probes \in 0..MaxProbes
+          /\ SetupShapes \subseteq AllShapes /\ AddrShapes \subseteq AllShapes
 
 PlanOut == (probes = MaxProbes /\ after = MaxAfter) => PrintT("PLAN " \o ToJson(hist))
 =============================================================================
